@@ -167,6 +167,25 @@ def run(F, R, tier):
                 F.loc(f), "value is returned from inside the try block before the checks", key="K1|return")
     if seen_sites < 2:
         R.broken("K1: only %d live std::sto* conversion sites found" % seen_sites)
+    # ---- K9: a file is read into an empty container ------------------------------------------------------------------
+    R.rule("K9", "read_from_file empties the SLHA container before it reads (a second file read with the same object must not inherit "
+                 "blocks of the first): data.clear() precedes the read on the path that reads", 1)
+    for f9 in F.by_name.get("gm2calc::GM2_slha_io::read_from_file", []):
+        St9 = Struct(f9)
+        reads = [n for n in walk(f9["body"]) if is_call(n) and (str(n.get("fn") or "").endswith("Coll::read") or
+                                                                 str(n.get("fn") or "").endswith("GM2_slha_io::read_from_stream"))]
+        ok9, why9 = bool(reads), "no read call found"
+        for rd in reads:
+            before = St9.executed_before(rd)
+            cleared = any(is_call(y) and re.search(r"(Coll|GM2_slha_io)::clear$", str(y.get("fn") or "")) for b in before for y in walk(b))
+            # a callee that clears itself counts as well
+            if not cleared and str(rd.get("fn") or "").endswith("read_from_stream"):
+                g9 = F.functions.get(rd.get("mg"))
+                cleared = g9 is not None and any(is_call(y) and re.search(r"Coll::clear$", str(y.get("fn") or "")) for y in walk(g9["body"]))
+            if not cleared:
+                ok9, why9 = False, "the container is not cleared before the read at line %s: blocks of an earlier file stay in it" % rd.get("l")
+        R.check("K9", ok9, "read_from_file: clear() before read", F.loc(f9), why9, key="K9|read_from_file")
+
     # ---- K8: case-insensitive block lookup inside SLHAea ----------------------------------------------------------
     R.rule("K8", "block names are matched case-insensitively: SLHAea::Coll::find / count locate blocks through key_matches, whose "
                  "comparison is boost::iequals (the repository's copy of slhaea.h is part of the analysed source)", 2)
@@ -389,7 +408,14 @@ def run(F, R, tier):
             Sx = Struct(f)
             Rx = Renderer(f, resolve_locals=False)
             okb, whyb = bool(per_block), "no per-block reader call"
-            for n in per_block:
+            early = [y for y in walk(loops[0].get("body") or {}) if y.get("k") in ("BreakStmt", "ReturnStmt", "GotoStmt")]
+            if early:
+                okb, whyb = False, "the loop over the blocks is left early (line %s): blocks after the first match are never read" % early[0].get("l")
+            rev = [y for y in walk(f["body"]) if is_call(y) and re.search(r"::c?r(begin|end)$", str(y.get("fn") or ""))]
+            if okb and rev:
+                okb, whyb = False, "the blocks are traversed in reverse order (line %s): with the earlier-blocks-first rule a later block must " \
+                                   "be read after, not before, the earlier ones" % rev[0].get("l")
+            for n in (per_block if okb else []):
                 if not any(y is n for y in walk(loops[0])):
                     okb, whyb = False, "the per-block reader at line %s runs outside the loop over the blocks: only one block is read" % n.get("l")
                     break
